@@ -4,6 +4,7 @@ import ast
 from ..core import AnalysisError, src
 from ..pysym import SymExec, show
 from ..rules_pyx import N, C, A
+from .. import boolfn as bf
 
 EXPLANATION = (
     'Static conformance of depccg/cat.py to R13.1-R13.4: Atom, Functor, UnaryFeature, TernaryFeature are '
@@ -81,33 +82,24 @@ def r_eq(mod, rep, R='R13.2'):
         fn = mod.get(name + '.__eq__')
         w = '%s:%s %s.__eq__' % (REL, fn.lineno, name)
         o = fn.args.args[1].arg
-        paths = SymExec(fn).run()
-        is_str = ('call', N('isinstance'), (N(o), N('str')), ())
-        is_cls = ('call', N('isinstance'), (N(o), N(name)), ())
-        str_ok = cls_ok = same_ok = None
-        for st, out in paths:
-            conds = [(c, p) for c, p, _ in st.conds]
-            if (is_str, True) in conds:
-                if base == 'Category':
-                    want = [('cmp', '==', ('call', N('str'), (N('self'),), ()), N(o)), ('cmp', '==', N(o), ('call', N('str'), (N('self'),), ()))]
-                else:
-                    want = [('cmp', '==', N('self'), ('call', A(N('Feature'), 'parse'), (N(o),), ()))]
-                str_ok = st.ret in want
-            elif (('unop', 'not', is_cls), True) in conds or (is_cls, False) in conds:
-                cls_ok = st.ret == C(False)
-            else:
-                got = sorted(show(x) for x in conj(st.ret)) if st.ret else []
-                want = sorted(show(('cmp', '==', A(N('self'), f), A(N(o), f))) for f in fields)
-                same_ok = got == want
-                detail = got
-        rep.check(bool(str_ok), R, w, name + ':eq:str', '%s == <str> compares %s' % (name, 'the canonical text str(self)' if base == 'Category' else 'with the parsed feature'),
-                  '%s == <str> does not compare with the canonical text' % name)
-        rep.check(bool(cls_ok), R, w, name + ':eq:other-class', '%s == <other class> is False' % name, '%s == <other class> is not False' % name)
-        rep.check(bool(same_ok), R, w, name + ':eq:fields', '%s equality compares exactly the declared (hashed) fields %s' % (name, fields),
-                  '%s equality compares %s, declared fields are %s' % (name, locals().get('detail'), fields))
+        is_str = bf.T(('call', N('isinstance'), (N(o), N('str')), ()))
+        is_cls = bf.T(('call', N('isinstance'), (N(o), N(name)), ()))
+        if base == 'Category':
+            text_eq = bf.T(('cmp', '==', ('call', N('str'), (N('self'),), ()), N(o)))
+        else:
+            text_eq = bf.T(('cmp', '==', N('self'), ('call', A(N('Feature'), 'parse'), (N(o),), ())))
+        same = bf.AND(*[bf.T(('cmp', '==', A(N('self'), f), A(N(o), f))) for f in fields])
+        # a str is never an instance of the class: rows claiming both are not possible inputs
+        cons = lambda sigma: not (sigma.get(is_str[1], False) and sigma.get(is_cls[1], False)) if is_str[0] == 'atom' and is_cls[0] == 'atom' else True
+        ok, detail = bf.matches(fn, bf.ITE(is_str, text_eq, bf.AND(is_cls, same)), cons)
+        rep.check(ok, R, w, name + ':eq:fields',
+                  '%s equality: a str compares with %s, another class is unequal, the same class compares exactly the declared (hashed) fields %s (%s)'
+                  % (name, 'the canonical text str(self)' if base == 'Category' else 'the parsed feature', fields, detail),
+                  '%s.__eq__ is not {str: canonical text; other class: False; same class: all of %s equal}: %s' % (name, fields, detail))
 
 
 def r_xor(mod, rep, R='R13.3'):
+    """`^` (equal up to features): same class, and for atoms equal base, for functors equal slash and both sides `^`"""
     spec = {'Atom': lambda s, o: [('cmp', '==', A(s, 'base'), A(o, 'base'))],
             'Functor': lambda s, o: [('binop', '^', A(s, 'left'), A(o, 'left')), ('cmp', '==', A(s, 'slash'), A(o, 'slash')),
                                      ('binop', '^', A(s, 'right'), A(o, 'right'))]}
@@ -115,18 +107,11 @@ def r_xor(mod, rep, R='R13.3'):
         fn = mod.get(name + '.__xor__')
         w = '%s:%s %s.__xor__' % (REL, fn.lineno, name)
         o = fn.args.args[1].arg
-        is_cls = ('call', N('isinstance'), (N(o), N(name)), ())
-        neg = main = None
-        for st, out in SymExec(fn).run():
-            conds = [(c, p) for c, p, _ in st.conds]
-            if (('unop', 'not', is_cls), True) in conds or (is_cls, False) in conds:
-                neg = st.ret == C(False)
-            else:
-                main = sorted(show(x) for x in conj(st.ret)) == sorted(show(x) for x in mk(N('self'), N(o)))
-                detail = show(st.ret)
-        rep.check(bool(neg), R, w, name + ':xor:other-class', '%s ^ <other class> is False' % name, '%s ^ <other class> is not False' % name)
-        rep.check(bool(main), R, w, name + ':xor:fields', '%s ^ other compares the __eq__ components minus the feature (%s)' % (name, locals().get('detail')),
-                  '%s ^ other is %s' % (name, locals().get('detail')))
+        is_cls = bf.T(('call', N('isinstance'), (N(o), N(name)), ()))
+        want = bf.AND(is_cls, *[bf.T(t) for t in mk(N('self'), N(o))])
+        ok, detail = bf.matches(fn, want)
+        rep.check(ok, R, w, name + ':xor:fields', '%s ^ other: other is a %s and %s (%s)' % (name, name, ' and '.join(show(t) for t in mk(N('self'), N(o))), detail),
+                  '%s ^ other is not {same class and %s}: %s' % (name, ' and '.join(show(t) for t in mk(N('self'), N(o))), detail))
 
 
 def r_clear(mod, rep, R='R13.4'):
